@@ -124,7 +124,7 @@ func runDebug(cmd, repo, verif, fnKey, out string, timeout, par int) int {
 		sort.Strings(ks)
 		for _, k := range ks {
 			c := w.contracts[k]
-			if c.IsLemma || c.Trusted {
+			if c.IsLemma {
 				continue
 			}
 			fn := w.funcs[k]
@@ -142,7 +142,11 @@ func runDebug(cmd, repo, verif, fnKey, out string, timeout, par int) int {
 				}
 				ps = append(ps, n)
 			}
-			fmt.Printf("%s\t%s\t%s\t%s\n", c.File, c.Key, strings.Join(orderedLocals(fn), " "), strings.Join(ps, " "))
+			locs := orderedLocals(fn)
+			if c.Trusted {
+				locs = nil // a trusted contract speaks about parameters and results only
+			}
+			fmt.Printf("%s\t%s\t%s\t%s\n", c.File, c.Key, strings.Join(locs, " "), strings.Join(ps, " "))
 		}
 		return 0
 	}
